@@ -76,9 +76,15 @@ def build(d):
         return out
     if "enum" in d:
         return registry()[d["enum"]][d["name"]]
+    if "np" in d:
+        return getattr(np, d["np"])(d["v"])
     cls = d["cls"]
     args = {k: build(v) for k, v in d["args"].items()}
     R = registry()
+    if d.get("via") == "alt":
+        alt = build_alt(cls, args)
+        if alt is not None:
+            return alt
     if cls == "LaneletNetwork":
         extra = {k: args.pop(k, []) for k in ("lanelets", "intersections", "traffic_signs", "traffic_lights", "areas")}
         net = R[cls](**args)
@@ -105,6 +111,60 @@ def build(d):
                     sc.add_objects(o)
         return sc
     return R[cls](**args)
+
+
+ALT_CLASSES = ["Scenario", "LaneletNetwork", "PlanningProblemSet", "CustomState", "SignalState"] + \
+    [c for c in STATE_CLASSES if c != "CustomState"]
+
+
+def build_alt(cls, args):
+    """the rarely used entry points: list form of add_objects, create_from_lanelet_list, add_planning_problem, an empty
+    state / signal state filled attribute by attribute"""
+    R = registry()
+    if cls == "Scenario":
+        extra = {k: args.pop(k, _SENTINEL) for k in ("lanelet_network", "static_obstacles", "dynamic_obstacles",
+                                                     "environment_obstacle", "phantom_obstacle")}
+        sc = R[cls](**args)
+        if extra["lanelet_network"] is not _SENTINEL:
+            sc.replace_lanelet_network(extra["lanelet_network"])
+        objs = []
+        for k in ("static_obstacles", "dynamic_obstacles", "environment_obstacle", "phantom_obstacle"):
+            if extra[k] is not _SENTINEL:
+                objs += list(extra[k])
+        sc.add_objects(objs)  # one call with the whole list, all obstacle kinds mixed
+        return sc
+    if cls == "LaneletNetwork":
+        extra = {k: args.pop(k, []) for k in ("lanelets", "intersections", "traffic_signs", "traffic_lights", "areas")}
+        net = R[cls].create_from_lanelet_list(list(extra["lanelets"]), cleanup_ids=False)
+        if "information" in args:
+            net.information = args["information"]
+        for s in extra["traffic_signs"]:
+            net.add_traffic_sign(s, set())
+        for s in extra["traffic_lights"]:
+            net.add_traffic_light(s, set())
+        for s in extra["areas"]:
+            net.add_area(s, set())
+        for s in extra["intersections"]:
+            net.add_intersection(s)
+        return net
+    if cls == "PlanningProblemSet":
+        pps = R[cls]()
+        for p in args.get("planning_problem_list") or []:
+            pps.add_planning_problem(p)
+        return pps
+    if cls == "CustomState":
+        st = R[cls](time_step=args["time_step"]) if "time_step" in args else R[cls]()
+        for k, v in args.items():
+            if k != "time_step":
+                st.add_attribute(k)
+                st.set_value(k, v)
+        return st
+    if cls == "SignalState" or cls in STATE_CLASSES:
+        st = R[cls]()
+        for k, v in args.items():
+            setattr(st, k, v)
+        return st
+    return None
 
 
 # ------------------------------------------------------------------------------------------------ types
@@ -1154,6 +1214,8 @@ def encode(v, sort_sets=False):
         return {"c": "SignalState", "f": [encode(getattr(v, g), sort_sets) if hasattr(v, g) else ABSENT for g in getters(spec)]}
     if spec.name == "PlanningProblemSet":
         return {"c": spec.family, "f": [encode(list(v.planning_problem_dict.values()), sort_sets)]}
+    if spec.name == "Scenario":  # scenario.py:597-636 compares and hashes str(dt), not dt
+        return {"c": spec.family, "f": [{"s": str(v.dt)} if g == "dt" else encode(getattr(v, g), sort_sets) for g in getters(spec)]}
     return {"c": spec.family, "f": [encode(getattr(v, g), sort_sets) for g in getters(spec)]}
 
 
